@@ -623,3 +623,39 @@ def rule_no_escape(ctx):
                 ctx.ok("IO.NO-ESCAPE", site, fi, fi.node,
                        "handle '%s' is only used locally, passed as an argument, closed or returned" % v)
     ctx.floor("IO.NO-ESCAPE", 3)
+
+
+OWNING_WRAPPERS = ("TextIOWrapper", "BufferedWriter", "BufferedReader", "BufferedRandom", "GzipFile", "BZ2File", "LZMAFile", "StreamReaderWriter")
+
+
+def rule_wrapper_ownership(ctx):
+    """IO.CALLER-OWNED (wrappers): an io wrapper closes the stream it wraps when it is closed *or finalised*.  A wrapper put
+    around an object that may be the caller's (a parameter) must be detached again on the way out, otherwise the caller's file
+    is closed as soon as the wrapper is garbage-collected - even on the success path"""
+    p = ctx.p
+    n = 0
+    for q in WRITE_ENTRY + ("las.LASFile.read", "reader.open_file"):
+        if not p.has_func(q):
+            continue
+        fi = p.func(q)
+        params = set(fi.params())
+        for sub in walk_shallow(fi.node):
+            if isinstance(sub, ast.Assign) and isinstance(sub.value, ast.Call) and ast.unparse(sub.value.func).split(".")[-1] in OWNING_WRAPPERS:
+                c = sub.value
+                inner = c.args[0] if c.args else next((k.value for k in c.keywords if k.arg in ("fileobj", "buffer", "raw")), None)
+                if not (isinstance(inner, ast.Name) and inner.id in params):
+                    continue
+                n += 1
+                wvars = {t.id for t in sub.targets if isinstance(t, ast.Name)}
+                # aliases: file_ref = text_layer
+                for a_ in walk_shallow(fi.node):
+                    if isinstance(a_, ast.Assign) and isinstance(a_.value, ast.Name) and a_.value.id in wvars:
+                        wvars |= {t.id for t in a_.targets if isinstance(t, ast.Name)}
+                detached = any(isinstance(d, ast.Call) and isinstance(d.func, ast.Attribute) and d.func.attr == "detach"
+                               and isinstance(d.func.value, ast.Name) and d.func.value.id in wvars for d in walk_shallow(fi.node))
+                ctx.check(detached, "IO.CALLER-OWNED", "%s#wrapper(%s)" % (q, inner.id), fi, c,
+                          "the wrapper around the caller's stream is detached before it goes out of scope",
+                          "`%s` wraps the object supplied as `%s` and is never detach()ed: when the wrapper is finalised it closes the "
+                          "caller's file, although lasio did not open it" % (ast.unparse(c)[:60], inner.id))
+    if n == 0:
+        ctx.ok("IO.CALLER-OWNED", "wrappers#none", None, 0, "no owning io wrapper is put around a caller-supplied stream", nontrivial=False)
